@@ -128,6 +128,9 @@ ApplyLive(st, op, a) ==
                                THEN Upd(st, ApplyRowPerm(g, StablePerm(KeysOf(ColOf(g, a.col)))), Unit)
                                ELSE Rejected(st)
       [] op = "clone"      -> Same(st, Ids(Flat(g)))       \* an equal, independent array (compared, mutated, dropped)
+      \* Clone::clone_from(&mut self, &source): afterwards self equals the source (a.nc x a.nr holding a.items);
+      \* what self held before is dropped
+      [] op = "clone_from" -> Upd(st, FromFlat(a.nc, a.nr, a.items), Unit)
       [] op = "from_view"  -> IF WindowOK(g, a.s, a.e) THEN Same(st, Ids(Flat(Window(g, a.s, a.e)))) ELSE Rejected(st)
       [] op \in {"into_vec", "into_box"} ->
                               Mk("gone", << >>, NoHandle, st.held \o Flat(g), Ids(Flat(g)))
@@ -141,7 +144,7 @@ ApplyLive(st, op, a) ==
 LiveOps == {"insert_row", "push_row", "insert_col", "push_col", "remove_row", "pop_row", "remove_col", "pop_col",
             "clear", "swap_dimensions", "reserve", "reserve_exact", "shrink_to_fit", "fill", "set", "swap",
             "swap_rows", "swap_cols", "translate", "flip_rows", "flip_cols", "sort_by_row", "sort_by_col",
-            "clone", "from_view", "into_vec", "into_box", "into_iter", "drop", "leak_borrow"}
+            "clone", "clone_from", "from_view", "into_vec", "into_box", "into_iter", "drop", "leak_borrow"}
 
 Enabled(st, op) == \/ st.phase \in {"none", "gone"} /\ st.handle.kind = "none" /\ op \in ConstructorOps
                    \/ st.handle.kind # "none" /\ op \in DrainOps \cup {"d_forget"}
